@@ -78,6 +78,27 @@ def clist(items):
 
 
 # ------------------------------------------------------------------------------------ translation
+def norm_seg(seg):
+    """a path segment, possibly with generic arguments: `ExecutorBuilder<(EmptyExecutorBuilderState,Contract)>` ->
+    `ExecutorBuilder[Empty]` (the type-state marker selects the impl block); other generic arguments are dropped"""
+    base, lt, rest = seg.partition("<")
+    if not lt:
+        return seg
+    for marker, tag in (("EmptyExecutorBuilderState", "Empty"), ("ReadyExecutorBuilderState", "Ready")):
+        if marker in rest:
+            return "%s[%s]" % (base, tag)
+    return base
+
+
+def impl_name(key):
+    """name prefix of the methods of an impl block: `Type<..>` or `Type<..> as Trait<..>` -> `Type` / `Type[State]`"""
+    ty = key.split(" as ")[0].strip()
+    n = norm_seg(ty)
+    if n == ty and "<" not in ty:
+        return ty
+    return n if "[" in n else ty.partition("<")[0]
+
+
 class FnTranslator:
     def __init__(self, self_type=None, struct_fields=None):
         self.self_type = self_type
@@ -85,13 +106,14 @@ class FnTranslator:
         self.calls = set()
 
     def con_name(self, segs):
-        segs = [self.self_type if (s == "Self" and self.self_type) else s for s in segs]
+        # (a value of a type-state builder is a record of the type, whatever the state marker)
+        segs = [self.self_type.partition("[")[0] if (s == "Self" and self.self_type) else s.partition("[")[0] for s in segs]
         return "::".join(segs[-2:]) if len(segs) >= 2 else segs[0]
 
     def path_segs(self, sx):
         if not (isinstance(sx, list) and sx and sx[0] == "path"):
             raise TranslateError("expected a path, got %r" % (sx,))
-        return [S(a) for a in sx[1:]]
+        return [norm_seg(S(a)) for a in sx[1:]]
 
     # ---- patterns
     def pat(self, p):
@@ -113,6 +135,8 @@ class FnTranslator:
             return "(POr %s)" % clist([self.pat(q) for q in p[1:]])
         if h == "plit":
             return "(PLit %s)" % self.lit(p[1])
+        if h == "ptuple":
+            return "(PCon \"()\" %s)" % clist([self.pat(q) for q in p[1:]])
         raise TranslateError("unsupported pattern: %r" % (p,))
 
     def lit(self, e):
@@ -174,6 +198,8 @@ class FnTranslator:
             return "(EConst %s)" % self.lit(e)
         if h == "unit":
             return "(EConst VUnit)"
+        if h == "tuple":
+            return "(ECon \"()\" %s)" % clist([self.expr(a) for a in e[1:]])
         if h == "path":
             segs = self.path_segs(e)
             if len(segs) == 1 and not segs[0][:1].isupper():
@@ -204,6 +230,8 @@ class FnTranslator:
             args = clist([self.expr(a) for a in e[2:]])
             if segs[-1][:1].isupper():
                 return "(ECon %s %s)" % (cs(self.con_name(segs)), args)
+            if segs[0] == "Self" and self.self_type:
+                segs = [self.self_type] + segs[1:]
             name = "::".join(segs)
             self.calls.add(name)
             return "(ECall %s %s)" % (cs(name), args)
@@ -211,7 +239,9 @@ class FnTranslator:
             name = S(e[2])
             if name == "unwrap_or_default":
                 name = self.unwrap_default_name(e[1])
-            if name not in ("len", "is_empty", "into", "unwrap_or_default_string"):
+            if name in ("to_owned", "clone"):
+                name = "into"                      # value-preserving conversions
+            if name not in ("len", "is_empty", "into", "to_string", "unwrap_or_default_string"):
                 raise TranslateError("unsupported method call .%s()" % name)
             return "(ECall %s %s)" % (cs(name), clist([self.expr(e[1])] + [self.expr(a) for a in e[3:]]))
         if h == "block":
@@ -274,9 +304,15 @@ def translate_fn(sx, self_type=None, struct_fields=None, qualified=None):
         raise TranslateError("not a fn: %r" % (sx[0],))
     name = S(sx[1])
     consts = [S(c) for c in sx[2][1:]]
-    params = [(S(p[1]), S(p[2])) for p in sx[3][1:]]
-    body = sx[5]
     t = FnTranslator(self_type, struct_fields)
+    params, prelude = [], []
+    for i, p in enumerate(sx[3][1:]):
+        if p[0] == "pp":            # a destructuring parameter pattern: bound from a fresh parameter
+            params.append(("arg%d" % i, S(p[2])))
+            prelude.append("SLet %s (EVar %s)" % (t.pat(p[1]), cs("arg%d" % i)))
+        else:
+            params.append((S(p[1]), S(p[2])))
+    body = sx[5]
     for pn, pt in params:
         if "&mut" in pt.replace(" ", "") or pt == "&mut self":
             raise TranslateError("fn %s: parameter %s is a mutable reference (aliasing is not modelled)" % (name, pn))
@@ -292,8 +328,11 @@ def translate_fn(sx, self_type=None, struct_fields=None, qualified=None):
         if owner is None:
             raise TranslateError("fn %s: const generic %s is not the length of a parameter array" % (name, c))
         cbind.append("(%s, %s)" % (cs(c), cs(owner)))
+    btext = t.block(body)
+    if prelude:
+        btext = "(EBlock %s)" % clist(prelude + ["STail %s" % btext])
     text = "{| fn_name := %s; fn_params := %s; fn_consts := %s;\n     fn_body := %s |}" % (
-        cs(qualified or name), clist([cs(p[0]) for p in params]), clist(cbind), t.block(body))
+        cs(qualified or name), clist([cs(p[0]) for p in params]), clist(cbind), btext)
     return text, t.calls
 
 
@@ -306,7 +345,7 @@ def fetch_ast(path):
     return kv
 
 
-BUILTINS = {"len", "is_empty", "konst::cmp_str", "konst::eq_str", "into", "unwrap_or_default_string"}
+BUILTINS = {"len", "is_empty", "konst::cmp_str", "konst::eq_str", "into", "to_string", "unwrap_or_default_string", "Binary::default"}
 
 
 def translate_utils():
@@ -367,6 +406,49 @@ def translate_builder():
     return out, fields
 
 
+def translate_methods(relpath, wanted):
+    """methods of impl blocks of a file: wanted = {impl name: [method names]} -> list of fn_def texts (qualified names)"""
+    kv = fetch_ast(os.path.join(common.REPO, "sylvia", "src", *relpath.split("/")))
+    structs = {}
+    for k, v in kv:
+        if k == "struct":
+            nm, _, fs = v.partition(" @@ ")
+            structs[nm] = dict((f.split(":", 1)[0], f.split(":", 1)[1]) for f in fs.split(" ;; ") if ":" in f)
+    out, found = [], set()
+    known = {"%s::%s" % (i, m) for i, ms in wanted.items() for m in ms}
+    for k, v in kv:
+        if k != "method":
+            continue
+        key, _, sxs = v.partition(" @@ ")
+        iname = impl_name(key)
+        if iname not in wanted:
+            continue
+        sx = parse_sx(sxs)
+        name = S(sx[1])
+        if name not in wanted[iname]:
+            continue
+        q = "%s::%s" % (iname, name)
+        if q in found:
+            raise TranslateError("%s: %s is defined more than once" % (relpath, q))
+        base = iname.partition("[")[0]
+        text, cl = translate_fn(sx, iname, structs.get(base, {}), q)
+        bad = cl - BUILTINS - known
+        if bad:
+            raise TranslateError("%s: %s calls %s, which is not translated" % (relpath, q, sorted(bad)))
+        out.append(text)
+        found.add(q)
+    missing = sorted(known - found)
+    if missing:
+        raise TranslateError("%s: methods not found: %s" % (relpath, missing))
+    return out
+
+
+TYPES_WANTED = {"ExecutorBuilder[Empty]": ["new"], "ExecutorBuilder": ["with_funds", "funds", "contract"],
+                "ExecutorBuilder[Ready]": ["new", "build"],
+                "Remote": ["new", "borrowed", "executor", "update_admin", "clear_admin"]}
+CTX_WANTED = {c: ["from"] for c in ("MigrateCtx", "ReplyCtx", "ExecCtx", "InstantiateCtx", "QueryCtx", "SudoCtx")}
+
+
 def generate():
     """Returns (coq text, [errors]). A part whose translation fails is emitted as the empty program (so that nothing
     stale is ever proved about or run), and the failure is returned for the report."""
@@ -380,17 +462,30 @@ def generate():
     except TranslateError as e:
         (builder, bfields), _ = ([], []), errors.append("sylvia/src/builder/instantiate.rs: %s" % e)
 
+    try:
+        types = translate_methods("types.rs", TYPES_WANTED)
+    except TranslateError as e:
+        types, _ = [], errors.append("sylvia/src/types.rs: %s" % e)
+    try:
+        ctxs = translate_methods("ctx.rs", CTX_WANTED)
+    except TranslateError as e:
+        ctxs, _ = [], errors.append("sylvia/src/ctx.rs: %s" % e)
+
     def prog(fns):
         return "  [ " + ";\n    ".join(fns) + " ]." if fns else "  []."
     text = "\n".join([
         "(* GENERATED on every run by py/verif/imp_translate.py from /repo/sylvia/src/utils.rs and",
-        "   /repo/sylvia/src/builder/instantiate.rs (syn dump of the probe). Do not edit. *)",
+        "   /repo/sylvia/src/builder/instantiate.rs, types.rs, ctx.rs (syn dump of the probe). Do not edit. *)",
         "From Coq Require Import String List.", "Require Import SV.Model.Imp.", "Import ListNotations.",
         "Open Scope string_scope.", ""] +
         ["(* NOT TRANSLATED: %s *)" % e.replace("*)", "* )") for e in errors] + [
         "Definition utils_program : program :=", prog(utils), "",
         "Definition builder_program : program :=", prog(builder), "",
-        "Definition builder_fields : list string := " + clist([cs(f) for f in bfields]) + ".", ""])
+        "Definition builder_fields : list string := " + clist([cs(f) for f in bfields]) + ".", "",
+        "(* sylvia/src/types.rs: ExecutorBuilder (both type states) and the helpers of Remote *)",
+        "Definition types_program : program :=", prog(types), "",
+        "(* sylvia/src/ctx.rs: the conversions of the entry-point argument tuples into the handler contexts *)",
+        "Definition ctx_program : program :=", prog(ctxs), ""])
     return text, errors
 
 
